@@ -188,7 +188,6 @@ class Env:
     def stub(self, mod, name, fn):
         """by-contract mode: replace a callee of the extracted module by its contract (sym only);
         undone at the end of the path"""
-        if self.mode != 'sym': return
         old = getattr(mod, name)
         setattr(mod, name, fn)
         self._undo.append((mod, name, old))
@@ -547,9 +546,11 @@ def run_numeric(fn, sample=None, tol=1e-8, dtype='float64', rng=None, regime=Non
         fn(env)
     except Infeasible:
         outcome = 'precondition'
-
     except AssertionError as e:
         outcome = 'raised'; err = 'AssertionError: ' + str(e)[:300]
     except Exception as e:
         outcome = 'raised'; err = f'{type(e).__name__}: {str(e)[:300]}'
+    finally:
+        for (m_, n_, old_) in reversed(env._undo): setattr(m_, n_, old_)
+        env._undo = []
     return dict(clauses=env.clauses, outcome=outcome, error=err, values=env.values, decls=env.decls, sample=env.sample)
